@@ -16,6 +16,27 @@ import traceback
 import warnings
 
 
+def _selftest(prop: str, rc: int) -> int:
+    """Thorough tier: the negative configurations of this property's specs must be refuted (vacuity guard)."""
+    from . import selftest
+    from .tlc import Workdir
+
+    with Workdir(prop + "-selftest") as wd:
+        fails = selftest.run_for([prop], wd)
+    n = len(selftest.NEG.get(prop, []))
+    ev_path = f"/verif/evidence/{prop}.json"
+    try:
+        ev = json.load(open(ev_path))
+        ev["coverage"]["negative_configurations"] = n
+        ev["coverage"]["negative_configurations_refuted"] = n - len(fails)
+        json.dump(ev, open(ev_path, "w"), indent=1)
+    except Exception:
+        pass
+    for f in fails:
+        print(f"MACHINERY-FAILURE property={prop} {f}", file=sys.stderr)
+    return 2 if fails and rc == 0 else rc
+
+
 def main(argv=None) -> int:
     ap = argparse.ArgumentParser()
     ap.add_argument("prop")
@@ -37,7 +58,10 @@ def main(argv=None) -> int:
             with open(args.replay) as f:
                 body = json.load(f)
             return mod.replay(body)
-        return mod.run(args.tier)
+        rc = mod.run(args.tier)
+        if args.tier == "thorough":
+            rc = _selftest(prop, rc)
+        return rc
     except Exception:
         traceback.print_exc()
         print(f"MACHINERY-FAILURE property={prop}", file=sys.stderr)
